@@ -79,6 +79,7 @@ class Ctx:
         self.skipped = {}
         self.current_case = None
         self.debug_logging = False
+        self.preamble = None
         self.harness_errors = []
 
     # ---- sharding ----
@@ -116,7 +117,7 @@ class Ctx:
         self.n_violations += 1
         self.viol_mech[mechanism] = self.viol_mech.get(mechanism, 0) + 1
         if self.viol_mech[mechanism] <= MAX_REPLAYS_PER_MECHANISM + 2:
-            self.violations.append({"mechanism": mechanism, "what": what, "debug_logging": self.debug_logging,
+            self.violations.append({"mechanism": mechanism, "what": what, "debug_logging": self.debug_logging, "preamble": self.preamble,
                                     "case": jsonable(case), "detail": jsonable(detail)})
 
     def inconclusive_because(self, reason: str) -> None:
